@@ -91,6 +91,74 @@ CHECKS = {
              "L L^H equal to it, plu(A) = (permutation, lower, upper) with P L U equal to it, and factor-wise "
              "(Kronecker / BlockDiag / Diagonal / scalar) structure of the returned operators.",
         design="5/C11", technique="TLC exact definiteness/matrix oracle over enumerated trees + spec-to-code replay"),
+    "C12": dict(
+        text="TLC runs the conjugate-gradient recurrence exactly as coded in cg.py (right-hand-side and x0 normalisation, "
+             "initialize, take_cg_step, guarded divisions and converged mask as exact case splits) over Gaussian "
+             "rationals on up to 490 small real-SPD / complex-Hermitian-PD systems (2x2, 3x3, repeated eigenvalues, x0 "
+             "in {0, e1, b}, identity / Jacobi / rational SPD preconditioners, 1-2 columns incl. zero columns) and checks "
+             "in every state r = b - Ax, residual orthogonality, A-conjugacy, equality of the returned iterate with the "
+             "exact A-norm minimiser over x0 + K_k(MA, M r0) computed from the normal equations on the exact Krylov "
+             "basis, zero rhs => zero, termination within n steps, scale equivariance; every state is replayed through "
+             "cg, inv(A, CG)@b and solve in four dtypes for every max_iters <= 2n and compared with TLC's exact iterate. "
+             "The stopping contract (continue <=> some column above tol*(1+||r0||) and k < max_iters, cap, products = "
+             "k+1, iteration count and residual history of while_loop_winfo) is a TLC trace specification validated on "
+             "recorded real executions of the catalog and of seeded floating-point systems (n <= 200, cond <= 1e6, "
+             "clustered spectra, 12 decades of column norms, Jacobi / Nystrom preconditioners); Krylov optimality on "
+             "those larger systems is a harness-side numeric predicate (k <= 5, cond(MA) <= 100).",
+        design="5/C12", technique="TLC invariants on exact CG model + lock-step replay + TLC trace validation of the control contract"),
+    "C13": dict(
+        text="TLC evaluates the exact rational GMRES oracle (spec/LeastSquares.tla!GmresOpt: minimiser of ||b-Ax|| over "
+             "x0+K_m on a rank-revealing Krylov prefix) on a catalog of systems n<=4 (real non-symmetric, complex, "
+             "normal/non-normal, defective, eigenvector right-hand sides, x0 in {0,e1,exact}) for m=0..n+2 and checks in "
+             "every state rho2_m<=rho2_0, monotonicity, rho2_m=0 iff m>=Krylov dimension and the optimality "
+             "certificates; every state is replayed through gmres() and inv(A,GMRES())@b (residual, minimiser, monotone, "
+             "products with A counted, several columns), failures are classified against TLC's exact Galerkin iterate; "
+             "seeded systems up to n=150 are judged by a harness-side least-squares oracle.",
+        design="5/C13", technique="TLC exact oracle over catalog + spec-to-code replay of every state"),
+    "C14": dict(
+        text="TLC computes exactly (Krylov.tla over Mat.tla) rank sequence, Krylov dimension, excited spectrum and "
+             "expected column counts for a 263-case Gaussian-integer catalog (n <= 4) and proves that the Lanczos control "
+             "skeleton (LoopControl.tla) yields min(max_iters, n, KDim) columns under the exact test, plus its contract "
+             "for all test-outcome sequences (n <= 7, m <= 11). Real lanczos / lanczos_eigs / Lanczos() are checked "
+             "against these values and against the property's relations (first column, orthonormality, T = Q^H A Q real "
+             "symmetric tridiagonal with non-negative off-diagonal, A Q - Q T, Krylov span, Ritz pairs) on the catalog "
+             "and on seeded random Hermitian families to n = 300, single and batched; every recorded loop execution is "
+             "trace-validated by TLC (negative controls).",
+        design="5/C14", technique="TLC exact Krylov oracle + control-skeleton model checking + trace validation of real loops"),
+    "C15": dict(
+        text="As C14 for Arnoldi: TLC's exact Krylov data (incl. non-normal, defective and complex catalog matrices) and "
+             "the Arnoldi control skeleton give step count min(m, n, KDim), the number of orthonormal columns, buffer "
+             "layout and expected spectrum; real arnoldi / arnoldi_eigs / Arnoldi() are checked for A Q_m = Q H, upper "
+             "Hessenberg H with non-negative sub-diagonal, m > n equal to the n-step run, no spurious eigenvalues, on "
+             "the catalog and seeded random families to n = 200; recorded loops are trace-validated by TLC.",
+        design="5/C15", technique="TLC exact Krylov oracle + control-skeleton model checking + trace validation of real loops"),
+    "C16": dict(
+        text="TLC validates a catalog of exactly factored matrices A = U Sigma V^H (rational unitary factors, distinct "
+             "integer singular values; tall/wide/square, real/complex) and exports the exact best rank-k approximation "
+             "for every k (MC_Svd); TLC computes the exact minimum-norm least-squares solution for full-rank matrices of "
+             "every shape class and the structured kinds, checks its Moore-Penrose characterisation and the modelled "
+             "structural pinv rules (MC_Pinv); every state is replayed through svd (DenseSVD/Auto/Lanczos) and pinv "
+             "(default/Auto/LSTSQ/CG).",
+        design="5/C16", technique="TLC exact SVD / least-squares oracle over catalog + spec-to-code replay"),
+    "C17": dict(
+        text="TLC (MC_Rng over Rng.tla) explores every interleaving of user draws / reseeds of numpy's global generator "
+             "with calls of the nine randomised routines x 2 keys up to depth 4 (quick) / 5 (thorough) on a mechanism "
+             "model whose per-routine discipline is extracted from the current source; the interleavings are executed "
+             "against cola with SHA-256 identities of np.random.get_state() and of outputs, and Trace_Rng.tla validates "
+             "every recorded event (global state unchanged, same key => same bytes). HutchControl.tla decides by complete "
+             "enumeration of Rademacher sign vectors that the coded estimator is unbiased for every offset and gives its "
+             "exact variance; cola's pooled estimates are tested against it (== where the variance is 0, |z| <= 6 "
+             "otherwise - statistical, harness-side); Trace_Hutch.tla validates cap, key chain and divisor of recorded loops.",
+        design="5/C17", technique="TLC interleaving exploration + trace validation of recorded RNG states and outputs"),
+    "C18": dict(
+        text="The _dynamic registry is modelled in Registry.tla with instance templates extracted from the current tree; "
+             "TLC explores all construction orders (<= 4 over the conflict group, <= 2 over 45 templates) and checks "
+             "'leaves = array parameters' modulo known findings; orders are replayed in fresh interpreters (registry, "
+             "flatten leaves, unflatten round trip, leaf substitution; model drift reported). Persist.tla states the frame "
+             "conditions; MC_Persist enumerates all well-typed operation sequences (<= 3) over a pool of operators and "
+             "caller-owned arrays, replayed with digests of every array / operator after every call and validated by "
+             "Trace_Persist.tla, plus seeded longer sequences.",
+        design="5/C18", technique="TLC exploration of construction orders and operation sequences + fresh-interpreter replay + trace validation"),
     "C20": dict(
         text="TLC resolves every index form (ints, slices incl. negative/strided/empty, integer arrays, lists) with the "
              "transcribed Python slice.indices / negative-wrap semantics (PyIndex.tla) on every operator tree and "
